@@ -44,4 +44,21 @@ def boundedSpec (c : Nat) (zero : α) : Impl (List α) α where
   size l := l.length
   view l := l.map some
 
+/-- `std::array<T,N>`: fixed length; `{}` value-initialises, `{v…}` pads with value-initialised elements -/
+def arraySpec (n : Nat) (zero : α) : Impl (List α) α where
+  mkDefault L := (List.replicate n zero, L)
+  mkSized _ L := (List.replicate n zero, L)
+  mkVariadic vs L := ((vs ++ List.replicate (n - vs.length) zero).take n, L)
+  mkCopy l L := (l, L)
+  assign _ src L := (src, L)
+  assignSelf l L := (l, L)
+  push l _ L := (l, L)
+  pushAt l _ L := (l, L)
+  resize l _ L := (l, L)
+  write l i a L := (l.set i a, L)
+  read l i L := (l[i]?, L)
+  destroy _ L := L
+  size l := l.length
+  view l := l.map some
+
 end NmVerif.Containers
